@@ -86,3 +86,24 @@ Fixpoint table_look (t : list (list bytes * entry)) (names : list bytes) : optio
   | [] => None
   | (k, e) :: t' => if names_eqb k names then Some e else table_look t' names
   end.
+
+(* ---------- (3) what the client peer reads ---------- *)
+(* a client reading a response off the wire: the head ends at the first empty line and is cut into
+   lines (status line first); everything after it is the body *)
+Definition CRLF2 : bytes := CRLF ++ CRLF.
+Definition read_reply (pkt : bytes) : option (list bytes * bytes) :=
+  match split_once CRLF2 pkt with
+  | Some (head, body) => Some (split_all CRLF head, body)
+  | None => None
+  end.
+(* value of the first header line "name: value" *)
+Fixpoint find_header (name : bytes) (lines : list bytes) : option bytes :=
+  match lines with
+  | [] => None
+  | l :: t => if is_prefix (name ++ [COLON; SP]) l then Some (skipn (length name + 2) l)
+              else find_header name t
+  end.
+(* the body after undoing the content-encoding the header lines advertise *)
+Definition client_body (gunz : bytes -> bytes) (hdrs : list bytes) (body : bytes) : bytes :=
+  if option_eqb bytes_eqb (find_header (bs "Content-Encoding") hdrs) (Some (bs "gzip"))
+  then gunz body else body.
